@@ -4,5 +4,6 @@ CONSTANTS
   RethrowUnmatched = FALSE
   FinallyAlways = TRUE
   ObjectMatch = TRUE
+  ObjectMatchValues = TRUE
   ShardK = 0
   ShardN = 1
